@@ -464,7 +464,15 @@ impl<SD, E: Exfiltrator> SignalIterator<SD, E> {
 
             match self.signals.borrow_mut().poll_pending(has_signals) {
                 Ok(Some(pending)) => self.iter = pending,
-                Ok(None) => return PollResult::Pending,
+                Ok(None) => {
+                    // `poll_pending` returns `None` without ever consulting `has_signals` if the
+                    // instance got closed since the check at the top of the loop. Nothing would
+                    // wake the caller up then, so this must not be reported as `Pending`.
+                    if self.signals.borrow_mut().handle.is_closed() {
+                        break;
+                    }
+                    return PollResult::Pending;
+                }
                 Err(err) => return PollResult::Err(err),
             }
         }
